@@ -37,7 +37,8 @@ META = {
 
 THEOREMS = [
     "rect_all_histories", "row_aligned", "built_datasets_are_good", "subset_spec", "subset_mask_keeps_order",
-    "extend_spec", "merge_sort_spec", "difference_spec", "difference_rect", "shared_reference_once_partial",
+    "extend_spec", "merge_sort_spec", "merge_sort_unique", "difference_spec", "difference_rows_paired", "key_cells_leibniz",
+    "difference_rect", "shared_reference_once", "shared_reference_store_level", "c09_sharing_lost_refuted",
     "c09_subset_sum_refuted", "c09_attr_fill_refuted", "c09_unstable_sort_refuted",
 ]
 
@@ -951,7 +952,7 @@ def make_history(spec):
 CORPUS = ["subset_index", "unstable_sort", "nested_pad", "fill_unattached", "empty_self_nested", "empty_other_sharing",
           "text_narrow_then_wide", "text_wide_then_narrow", "text_99_100", "text_100_99", "text_u99_u100", "text_u100_u99",
           "text_merge_widths", "empty_self_toplevel", "first_collection_emptied", "first_collection_never_filled",
-          "nested_first_collection_emptied", "time_only_in_other", "per_column_units"]
+          "nested_first_collection_emptied", "empty_collection_gets_field", "time_only_in_other", "per_column_units"]
 
 
 def corpus_history(name):
@@ -995,6 +996,10 @@ def corpus_history(name):
         h.delete("grp.sub.h")
         h.subset_mask([True, True])
         h.extend(build_real(rk + [fd("grp.n3", "time_delta")], 4, 100))
+    elif name == "empty_collection_gets_field":
+        h.start(rk + [fd("grp.g1", "float")], 2)
+        h.delete("grp.g1")
+        h.extend(build_real(rk + [fd("grp.g1", "float")], 3, 100))
     elif name == "time_only_in_other":
         # time / time_delta fields (and a position's time) that only the other dataset has: prepend_empty inserts at
         # row 0; value, jd1 and jd2 of every row must stay together
